@@ -10,3 +10,4 @@
 import DuckModel.Props.C08Core
 import DuckModel.Props.C08Indexed
 import DuckModel.Props.C08Translated
+import DuckModel.Props.C08Dead
